@@ -2,6 +2,7 @@ package checks
 
 import (
 	"fmt"
+	"github.com/Fantom-foundation/lachesis-base/abft"
 	"sort"
 
 	"github.com/Fantom-foundation/lachesis-base/inter/idx"
@@ -44,7 +45,7 @@ func c08observe(in *cons.Inst, err error, newBlocks []*cons.Block, probeRoots bo
 
 func runC08(c *ev.Ctx) {
 	c.Rule = "multi-epoch runs (2..8 validators, forks <1/3 with every third run in a fork-root regime of frequent forks whose twins are mostly never built on, lag, sleeper regime, 1-3 epochs with validator-set changes, ~5% of the stream are invalid events with a wrong claimed frame so that reject decisions are compared too). " +
-		"Baseline A never restarts. (a) chain: instance B is torn down and rebuilt after EVERY event (main DB and current epoch DB copied into fresh stores, new abft.Store, fresh vecfc.Index, Bootstrap); (b) fork-off: at EVERY boundary i (runs <= limit events; otherwise every boundary within +-2 of a decision/seal plus a seeded sample) a clone restarted from A's state at i continues to the end. " +
+		"Every fourth run uses a roots cache of 1-4 entries. Baseline A never restarts. (a) chain: instance B is torn down and rebuilt after EVERY event (main DB and current epoch DB copied into fresh stores, new abft.Store, fresh vecfc.Index, Bootstrap); (b) fork-off: at EVERY boundary i (runs <= limit events; otherwise every boundary within +-2 of a decision/seal plus a seeded sample) a clone restarted from A's state at i continues to the end. " +
 		"Oracle per event: Process error/nil, newly emitted blocks (epoch, frame, Atropos, cheaters, delivered count, sealed), epoch, validators, last decided frame and the root sets of frames decided..decided+3 are identical to A's; no block is emitted while Bootstrap runs. " +
 		"non-trivial = distinct (run, boundary) pairs where the boundary directly follows a decision or an epoch seal"
 	c.Assumptions = []string{"the application's event storage (EventSource) survives the restart; main DB and the current epoch DB are what abft persists", "cheaters < 1/3"}
@@ -100,6 +101,12 @@ func runC08(c *ev.Ctx) {
 		}
 		policy := cfg.Policy()
 		icfg := cons.InstCfg{Index: cons.IndexCfg(i % 3), ReuseVals: i%2 == 0}
+		if i%4 == 3 {
+			// a roots cache smaller than the roots of one frame (and of few frames): the never-restarted instance lives on
+			// its cache, the restarted ones on the database
+			icfg.StoreCfg = &abft.StoreConfig{Cache: abft.StoreCacheConfig{RootsNum: uint(1 + r.Intn(4)), RootsFrames: []int{1, 3, 100}[r.Intn(3)]}}
+			c.Count("runs_with_a_tiny_roots_cache", 1)
+		}
 		A := cons.NewInst(cfg.Plans[0].Epoch, cfg.Plans[0].Validators(), policy, icfg)
 		B := cons.NewInst(cfg.Plans[0].Epoch, cfg.Plans[0].Validators(), policy, icfg)
 		desc := func() map[string]interface{} {
